@@ -29,6 +29,12 @@ func TestC17(t *testing.T) {
 	rapid.Check(t, func(t *rapid.T) {
 		size := rapid.SampledFrom([]int{1, 2, 3, 5, 17, 63, 64, 65, 100, 127, 128, 129, 191, 192, 193, 250, 254, 255, 256, 257, 300}).Draw(t, "size")
 		declared := rapid.IntRange(0, 3).Draw(t, "declared") > 0
+		// the cardinality limit of derived enums on every construction path: exactly 254..257 distinct values in the data
+		limitFocus := rapid.IntRange(0, 7).Draw(t, "limitfocus") == 0
+		if limitFocus {
+			size = rapid.SampledFrom([]int{254, 255, 256, 257}).Draw(t, "limitsize")
+			declared = false
+		}
 		rng := hx.SplitMix(rapid.Uint64().Draw(t, "permseed"))
 		// universe of values in an order that is not alphabetical (Fisher-Yates from the seed)
 		perm := hx.Iota(size)
@@ -52,6 +58,13 @@ func TestC17(t *testing.T) {
 		ranks := make([]int, n)
 		boundary := []int{0, 62, 63, 64, 65, 126, 127, 128, 129, 190, 191, 192, 193, 253, 254, size - 1}
 		coverAll := rapid.IntRange(0, 3).Draw(t, "coverall") == 0 // use every value (cardinality = size)
+		if limitFocus {
+			coverAll = true
+			if n < 300 {
+				n = 300
+				ranks = make([]int, n)
+			}
+		}
 		for r := range ranks {
 			switch {
 			case coverAll && r < size:
@@ -126,56 +139,70 @@ func TestC17(t *testing.T) {
 				size, declared, decl[:minInt(5, size)], n, path, outsidePos >= 0, len(distinct), coverAll, strings.Join(cells, " "), wantErr)
 		}
 
-		// construct
+		// construct; the caller's configuration maps are used for one or two constructions (configuration objects
+		// are values a program keeps and reuses) and must come back untouched
+		enumsMap := map[string][]string{"e": enumConf}
+		typesMap := map[string]string{"e": "enum", "id": "int"}
+		reuse := rapid.IntRange(0, 2).Draw(t, "reuseconfig") == 0
 		var qf qframe.QFrame
+		var construct func()
 		perr := hx.Safely(func() {
-			switch path {
-			case "new-ptrs":
-				qf = qframe.New(map[string]interface{}{"e": data, "id": hx.Iota(n)}, newqf.Enums(map[string][]string{"e": enumConf}))
-			case "new-strings":
-				ss := make([]string, n)
-				for i, p := range data {
-					ss[i] = *p
-				}
-				qf = qframe.New(map[string]interface{}{"e": ss, "id": hx.Iota(n)}, newqf.Enums(map[string][]string{"e": enumConf}))
-			case "new-const":
-				var v *string
-				if n > 0 {
-					v = data[0]
-				}
-				qf = qframe.New(map[string]interface{}{"e": qframe.ConstString{Val: v, Count: n}, "id": hx.Iota(n)}, newqf.Enums(map[string][]string{"e": enumConf}))
-			case "readcsv":
-				var sb strings.Builder
-				sb.WriteString("e,id\n")
-				for i, p := range data {
-					if p != nil {
-						sb.WriteString(*p)
+			construct = func() {
+				switch path {
+				case "new-ptrs":
+					qf = qframe.New(map[string]interface{}{"e": data, "id": hx.Iota(n)}, newqf.Enums(enumsMap))
+				case "new-strings":
+					ss := make([]string, n)
+					for i, p := range data {
+						ss[i] = *p
 					}
-					fmt.Fprintf(&sb, ",%d\n", i)
-				}
-				fns := []csv.ConfigFunc{csv.Types(map[string]string{"e": "enum", "id": "int"}), csv.EmptyNull(true)}
-				if declared {
-					fns = append(fns, csv.EnumValues(map[string][]string{"e": enumConf}))
-				}
-				if csvEmptyIsValue {
-					// without EmptyNull an empty cell is the value "": it must be declared (or is derived)
-					fns[1] = csv.EmptyNull(false)
-				}
-				qf = qframe.ReadCSV(strings.NewReader(sb.String()), fns...)
-			case "readjson":
-				recs := make([]map[string]interface{}, n)
-				for i, p := range data {
-					recs[i] = map[string]interface{}{"id": i}
-					if p != nil {
-						recs[i]["e"] = *p
-					} else {
-						recs[i]["e"] = nil
+					qf = qframe.New(map[string]interface{}{"e": ss, "id": hx.Iota(n)}, newqf.Enums(enumsMap))
+				case "new-const":
+					var v *string
+					if n > 0 {
+						v = data[0]
 					}
+					qf = qframe.New(map[string]interface{}{"e": qframe.ConstString{Val: v, Count: n}, "id": hx.Iota(n)}, newqf.Enums(enumsMap))
+				case "readcsv":
+					var sb strings.Builder
+					sb.WriteString("e,id\n")
+					for i, p := range data {
+						if p != nil {
+							sb.WriteString(*p)
+						}
+						fmt.Fprintf(&sb, ",%d\n", i)
+					}
+					fns := []csv.ConfigFunc{csv.Types(typesMap), csv.EmptyNull(true)}
+					if declared {
+						fns = append(fns, csv.EnumValues(enumsMap))
+					}
+					if csvEmptyIsValue {
+						// without EmptyNull an empty cell is the value "": it must be declared (or is derived)
+						fns[1] = csv.EmptyNull(false)
+					}
+					qf = qframe.ReadCSV(strings.NewReader(sb.String()), fns...)
+				case "readjson":
+					recs := make([]map[string]interface{}, n)
+					for i, p := range data {
+						recs[i] = map[string]interface{}{"id": i}
+						if p != nil {
+							recs[i]["e"] = *p
+						} else {
+							recs[i]["e"] = nil
+						}
+					}
+					b, _ := json.Marshal(recs)
+					qf = qframe.ReadJSON(bytes.NewReader(b), newqf.Enums(enumsMap))
 				}
-				b, _ := json.Marshal(recs)
-				qf = qframe.ReadJSON(bytes.NewReader(b), newqf.Enums(map[string][]string{"e": enumConf}))
+			}
+			construct()
+			if reuse {
+				construct()
 			}
 		})
+		if len(enumsMap) != 1 || len(typesMap) != 2 || typesMap["e"] != "enum" || typesMap["id"] != "int" || len(enumsMap["e"]) != len(enumConf) {
+			t.Fatalf("construction changed the caller's configuration maps: enums %v types %v\n%s", enumsMap, typesMap, desc())
+		}
 		if perr != nil {
 			t.Fatalf("construction panicked: %v\n%s", perr, desc())
 		}
